@@ -30,7 +30,7 @@ ANCHORS = []
 WORKERS = {"quick": 12, "thorough": 16}
 WATCHDOG = {"quick": 1200, "thorough": 3400}
 REQUIRED = {"pair:A-has-resonance-B-lacks": 5, "pair:A-cartesian-B-not": 3, "pair:crossing-reader-classes": 5, "hash-seeds>=2": 1, "exact-reproducibility-run": 2,
-            "history-length>=3": 2, "same-long-file-through-two-reader-classes-back-to-back": 2, "printing-conversion-after-a-failed-returning-one": 2, "failed-cartesian-read-then-polar-file": 5, "event-type-with-a-special-table-particle-read-after-another-file": 2, "two-reads-through-a-user-reader-class": 2, "printing-conversion-with-colours-after-a-returning-one": 2, "text-argument-read-after-another-read": 2, "same-amplitudes-under-two-event-orders-in-one-process": 2, "file-converted-again-after-another": 2, "same-bare-resonance-name-different-sub-lines": 2, "fresh-single-runs": 10, **{f"entry:{e}": 3 for e in ENTRIES}, "across-hash-seeds-compared": 3, "all-ordered-file-pairs": 1}
+            "history-length>=3": 2, "same-long-file-through-two-reader-classes-back-to-back": 2, "printing-conversion-after-a-failed-returning-one": 2, "failed-cartesian-read-then-polar-file": 5, "event-type-with-a-special-table-particle-read-after-another-file": 2, "two-reads-through-a-user-reader-class": 2, "read-refused-by-the-options-grammar-then-another-file": 2, "printing-conversion-with-colours-after-a-returning-one": 2, "text-argument-read-after-another-read": 2, "same-amplitudes-under-two-event-orders-in-one-process": 2, "file-converted-again-after-another": 2, "same-bare-resonance-name-different-sub-lines": 2, "fresh-single-runs": 10, **{f"entry:{e}": 3 for e in ENTRIES}, "across-hash-seeds-compared": 3, "all-ordered-file-pairs": 1}
 EXHAUSTIVE_NOTE = "all 36 ordered pairs of pool files are run in every tier (entry points rotated over the 25 ordered entry pairs); all ordered triples of 3 files in thorough"
 ASSUMPTIONS = ["inside the fresh interpreters the pure name lookup is memoised per (name, particle-table size); the library's one-time loading of the special particles happens inside each history",
                "the parent cannot instrument the child interpreters with sys.monitoring: anchors are not traced for this property (results are observed at the process boundary)"]
@@ -74,6 +74,7 @@ def resonance_names(model):
 
 REARRANGED = N_POOL + 1
 SPECIAL = N_POOL + 2   # index of the pool file whose event type names a particle of the library's own table of special (Mint / Dalitz) particles
+SYNTAX_POISON = N_POOL + 3   # index of the pool file that the options grammar refuses half-way down (missing brace) after complete lines
 SPECIAL_TEXT = ("\nEventType K(1460)+ K+ pi+ pi-\n"
                 "K(1460)+{K*(892)0{K+,pi-},pi+}  0 0.196037 0.0012135 0 -0.390311 0.00629977\n"
                 "K(1460)+{rho(770)0{pi+,pi-},K+}  2 1.0 0.0 2 0.0 0.0\n")
@@ -97,9 +98,12 @@ def write_pool(workdir):
         f.write(A.render(twin, random.Random(0), style={"crlf": False, "indent": False, "comments": True, "blank": True}))
     models.append(twin)
     # pool file 8: the decaying particle of the event type is one the library takes from its special-particle table (another mass and width than the PDG table)
+    with open(os.path.join(workdir, f"pool{SYNTAX_POISON}.txt"), "w", encoding="utf-8") as f:
+        f.write(A.SYNTAX_POISON_TEXT)
     with open(os.path.join(workdir, f"pool{SPECIAL}.txt"), "w", encoding="utf-8") as f:
         f.write(SPECIAL_TEXT)
     models.append({"event": ["K(1460)+", "K+", "pi+", "pi-"], "lines": [], "params": [], "consts": [], "cartesian": None, "extras": []})
+    models.append({"event": ["D0", "K-", "pi+", "pi+", "pi-"], "lines": [], "params": [], "consts": [], "cartesian": 1, "extras": [], "unreadable": True})
     return models
 
 
@@ -227,6 +231,8 @@ class Runner:
             ctx.hit("printing-conversion-after-a-failed-returning-one")
         if hist[0][0] == POISON and len(hist) >= 2:
             ctx.hit("failed-cartesian-read-then-polar-file")
+        if hist[0][0] == SYNTAX_POISON and len(hist) >= 2:
+            ctx.hit("read-refused-by-the-options-grammar-then-another-file")
         if sum(1 for _, e in hist if e.startswith("read_user_")) >= 2:
             ctx.hit("two-reads-through-a-user-reader-class")
         if SPECIAL in files[1:] and files[0] != SPECIAL:
@@ -250,7 +256,7 @@ class Runner:
             if "raised" in res or "raised" in ref:
                 if res.get("raised") != ref.get("raised"):
                     ctx.violate("history:raises-differently:" + e, f"step {i} {(f, e)}: in history {res.get('raised')!r}, fresh {ref.get('raised')!r}", {**wit, "step": i})
-                elif "raised" in ref and f != POISON:
+                elif "raised" in ref and f not in (POISON, SYNTAX_POISON):
                     ctx.violate("conversion-raises:" + e, f"pool file {f} entry {e}: {ref['raised']}\n{ref.get('traceback', '')}", {**wit, "step": i})
                 continue
             a, b = canon(res), canon(ref)
@@ -308,6 +314,8 @@ def run(ctx):
         for i, e in enumerate(ENTRIES):
             jobs.append(([[POISON, e], [[0, 1, 5][i % 3], e]], 0, "failed-read-then-polar-file"))
         jobs.append(([[POISON, "read"], [0, "cpp"], [1, "py"]], 0, "failed-read-then-polar-file"))
+        for i, e in enumerate(ENTRIES if not ctx.quick else ["read", "cpp", "read_py"]):
+            jobs.append(([[SYNTAX_POISON, e], [[1, 0, 5][i % 3], ENTRIES[(i + 1) % 5]], [[2, 3, 4][i % 3], e]], 0, "read-refused-by-the-grammar-then-other-files"))
         # the same amplitudes under another order of the event type, one conversion after the other
         for e in ("cpp", "py"):
             jobs.append(([[0, e], [REARRANGED, e]], 0, "same-amplitudes-other-event-order"))
